@@ -10,7 +10,9 @@ import "github.com/VictoriaMetrics/fastcache"
 // The C06 checker builds one node per enumerated execution; without this every node with snapshots
 // would leak a goroutine and its cache chunks. Access only: nothing in the repository calls it, the
 // checker calls it only AFTER all observations of a node were taken, and it decides nothing.
-func VerifC06Release(t *Tree) {
+// disable=false is for a tree that was already journalled (BlockChain.Stop): its generator is gone and Disable would
+// wait for it forever.
+func VerifC06Release(t *Tree, disable bool) {
 	if t == nil {
 		return
 	}
@@ -22,7 +24,9 @@ func VerifC06Release(t *Tree) {
 		}
 	}
 	t.lock.Unlock()
-	t.Disable()
+	if disable {
+		t.Disable()
+	}
 	for _, c := range caches {
 		c.Reset()
 	}
